@@ -277,6 +277,30 @@ theorem after_disconnect_silent (sr : Msg → Bool) (c : Conn) (evs : List Event
     | true => rw [h2 hf] at ih'; exact ih'
     | false => exact quiet_mono ih'
 
+/-- **a `read()` chunk is a history of `recv` events**: the inner loop of the reader task over the frames
+of one chunk (`feed`) does exactly what the events `recv m₁, recv m₂, …` of a prefix of those frames do –
+so `after_disconnect_silent` and `disconnect_once` speak about byte streams delivered in arbitrary chunks;
+frames behind one that ended in a disconnect are never processed (not now, not after a reconnect). -/
+theorem feed_is_history (sr : Msg → Bool) (env : Env) (c : Conn) (ms : List Msg) :
+    ∃ k, ((feed sr env c ms).1, (feed sr env c ms).2.1) = run sr c ((ms.take k).map (Event.recv env)) := by
+  induction ms generalizing c with
+  | nil => exact ⟨0, rfl⟩
+  | cons m rest ih =>
+    unfold feed
+    by_cases h0 : c.state ≤ st_DISCONNECTED_BROKEN_CONN
+    · exact ⟨0, by simp [h0, run]⟩
+    · rcases hr : recv sr env c m with ⟨c1, e1⟩
+      simp only [h0, if_false]
+      by_cases h1 : hasRaised e1 = true
+      · exact ⟨1, by simp [h1, run, step, hr]⟩
+      · by_cases h2 : c1.state ≤ st_DISCONNECTED_BROKEN_CONN
+        · exact ⟨1, by simp [h1, h2, run, step, hr]⟩
+        · obtain ⟨k, hk⟩ := ih c1
+          refine ⟨k + 1, ?_⟩
+          simp only [h1, h2, if_false, List.take_succ_cons, List.map_cons, run, step, hr]
+          rw [← hk]
+          simp
+
 /-! ## the disconnect is reported exactly once -/
 
 /-- One step, every event but transport set-up: exactly one `on_disconnect` when the step takes the
